@@ -93,6 +93,19 @@ claim("C16", "proof",
       "static analysis: partial evaluation + symbolic Jacobian identities + exact radical arithmetic",
       "DESIGN.md §5 C16")
 
+claim("C18", "other",
+      "Each of the 13 registered conversions is interpreted from its syntax tree for a collinear and a triangular point "
+      "with exactly the context its registration guarantees; names bound only under TYPE_CHECKING do not bind, kwargs reads "
+      "must be covered, the produced Hamiltonian's name must equal the registered destination, two-way edges must use inverse "
+      "partner transforms with identical mix_pairs, Lie edges must return their generating functions; the conversion service's "
+      "context check / default merge and registry reachability from 'physical' are checked; the complexification matrix is "
+      "proved unitary-inverse and symplectic, polynomial and coordinate substitutions are shown to use the same matrix in "
+      "matching direction, and synodic<->local maps are proved exact inverses (24 identities).",
+      "Trusted: kpe semantics; transforms are abstracted while the wrappers are analysed (their own semantics is C06/C08). "
+      "Not decided: agreement up to the cleaning tolerance as a magnitude.",
+      "static analysis: partial evaluation of registry functions with run-time binding rules + exact matrix/term identities",
+      "DESIGN.md §5 C18")
+
 PENDING = ["C02", "C03", "C04", "C05", "C06", "C07", "C08", "C09", "C10", "C11", "C12", "C13", "C14", "C15",
            "C16", "C17", "C18", "C19", "C20"]
 
